@@ -77,15 +77,17 @@ Elementwise(t, m, n) ==
 
 IsHi(c) == 55296 <= c /\ c <= 56319          \* D800..DBFF
 IsLo(c) == 56320 <= c /\ c <= 57343          \* DC00..DFFF
-(* UTF-16 reading of a sequence of code units, left to right, maximal pairing *)
+(* UTF-16 reading of a sequence of code units: a high surrogate immediately followed by a low
+   surrogate is one character.  The two surrogate ranges are disjoint, so pairs never overlap and the
+   reading can be stated without recursion: drop the low halves, combine at the high halves. *)
 Utf16(cs) ==
-  LET F[k \in 1..(Len(cs) + 1)] ==
-        IF k > Len(cs) THEN <<>>
-        ELSE IF k < Len(cs) /\ IsHi(cs[k].n) /\ IsLo(cs[k + 1].n)
-          THEN <<V("chr", 65536 + (cs[k].n - 55296) * 1024 + (cs[k + 1].n - 56320), <<>>)>>
-               \o (IF k + 2 > Len(cs) THEN <<>> ELSE F[k + 2])
-          ELSE <<cs[k]>> \o F[k + 1]
-  IN F[1]
+  LET n == Len(cs)
+      Starts == {i \in 1..(n - 1) : IsHi(cs[i].n) /\ IsLo(cs[i + 1].n)}
+      Keep == {p \in 1..n : (p - 1) \notin Starts}
+      Pos(j) == CHOOSE p \in Keep : Cardinality({q \in Keep : q <= p}) = j
+  IN [j \in 1..Cardinality(Keep) |->
+        LET p == Pos(j) IN
+        IF p \in Starts THEN V("chr", 65536 + (cs[p].n - 55296) * 1024 + (cs[p + 1].n - 56320), <<>>) ELSE cs[p]]
 (* the results the statement allows for unpack *)
 IdealResults(t, m, n) ==
   LET e == Elementwise(t, m, n) IN
